@@ -12,7 +12,10 @@ structure DState where
 
 def parseOp (x : String) : Option Op :=
   match x with
-  | "rd" => some .rd | "grd" => some .rd
+  | "rd" => some .rd | "grd" => some .rd | "rdw" => some .rd | "prd" => some .rd
+  | "wrw" => some .wr | "pwr" => some .wr
+  | "dtryrd" => some .tryRd | "rtryrd" => some .tryRd
+  | "dtrywr" => some .tryWr | "rtrywr" => some .tryWr
   | "wr" => some .wr | "gwr" => some .wr
   | "tryrd" => some .tryRd | "gtryrd" => some .tryRd
   | "trywr" => some .tryWr | "gtrywr" => some .tryWr
